@@ -3,7 +3,9 @@
 programs are compiled with gfortran and executed; the printed final state
 must equal the interpreter's.  This validates the stub; it is not a
 property check and its result is not evidence for any property.
-usage: selftest_interp_fidelity.py [nprograms=300] [seed=0] [--omp]"""
+usage: selftest_interp_fidelity.py [nprograms=300] [seed=0] [--acc]
+--acc: the C13 workload (simkit/accgen.py: arrays of extent n, calls of
+helper routines with by-reference arrays) instead of the C08/C09 one."""
 import os, subprocess, sys, tempfile, shutil
 ROOT = os.path.dirname(os.path.dirname(os.path.abspath(__file__)))
 sys.path.insert(0, ROOT)
@@ -42,24 +44,64 @@ def driver_text():
     return "\n".join(L) + "\n"
 
 
+def acc_driver_text():
+    from simkit import accgen
+    L = ["program drv", "  implicit none", "  integer :: n"]
+    for a in accgen.R1:
+        L.append(f"  real, allocatable :: {a}(:)")
+    for a in accgen.R2:
+        L.append(f"  real, allocatable :: {a}(:,:)")
+    for a in accgen.IARR:
+        L.append(f"  integer, allocatable :: {a}(:)")
+    L.append("  real :: " + ", ".join(accgen.RS))
+    L.append("  integer :: " + ", ".join(accgen.IS))
+    L.append("  open(10, file='in.txt')")
+    L.append("  read(10,*) n")
+    L.append("  allocate(" + ", ".join(f"{a}(n)" for a in accgen.R1 + accgen.IARR)
+             + ", " + ", ".join(f"{a}(n,n)" for a in accgen.R2) + ")")
+    args = ["n"] + accgen.R1 + accgen.R2 + accgen.IARR + accgen.RS + accgen.IS
+    for v in args[1:]:
+        L.append(f"  read(10,*) {v}")
+    L.append(f"  call sub({', '.join(args)})")
+    for v in args[1:]:
+        L.append(f"  write(*,'(A)') '{v}'")
+        if v in accgen.IARR or v in accgen.IS:
+            L.append(f"  write(*,'(I12)') {v}")
+        else:
+            L.append(f"  write(*,'(ES27.17E3)') {v}")
+    L.append("end program drv")
+    return "\n".join(L) + "\n", args
+
+
 def one(args):
-    idx, seed, omp = args
+    global ARGS
+    idx, seed, acc = args
     rs = run_seed(seed, "FIDELITY", idx)
-    prog = fgen.gen_program(stream(rs, "program"))
-    inputs = fgen.gen_inputs(stream(rs, "inputs"))
-    text = fgen.program_text(prog)
     from psyclone.psyir.frontend.fortran import FortranReader
     from psyclone.psyir.nodes import Routine
+    if acc:
+        from simkit import accgen
+        prog = accgen.gen_program(stream(rs, "program"))
+        inputs = accgen.gen_inputs(stream(rs, "inputs"))
+        text = accgen.program_text(prog)
+        drv, ARGS = acc_driver_text()
+    else:
+        prog = fgen.gen_program(stream(rs, "program"))
+        inputs = fgen.gen_inputs(stream(rs, "inputs"))
+        text = fgen.program_text(prog)
+        drv = driver_text()
     try:
         psyir = FortranReader().psyir_from_source(text)
         store = interp.make_store(inputs)
-        interp.run_serial(psyir.walk(Routine)[0].children, store)
+        ctx = interp.Ctx()
+        ctx.routines = {r.name.lower(): r for r in psyir.walk(Routine)}
+        interp.run_serial(psyir.walk(Routine)[0].children, store, ctx)
     except (interp.RuntimeFault, interp.Unsupported) as err:
         return ("skipped", str(err))
     tmp = tempfile.mkdtemp(prefix="fid", dir="/dev/shm")
     try:
         open(os.path.join(tmp, "sub.f90"), "w").write(text)
-        open(os.path.join(tmp, "drv.f90"), "w").write(driver_text())
+        open(os.path.join(tmp, "drv.f90"), "w").write(drv)
         with open(os.path.join(tmp, "in.txt"), "w") as f:
             for v in ARGS:
                 val = inputs[v]
@@ -97,11 +139,13 @@ def one(args):
 
 
 if __name__ == "__main__":
-    n = int(sys.argv[1]) if len(sys.argv) > 1 else 300
-    seed = int(sys.argv[2]) if len(sys.argv) > 2 else 0
+    nums = [a for a in sys.argv[1:] if not a.startswith("--")]
+    n = int(nums[0]) if nums else 300
+    seed = int(nums[1]) if len(nums) > 1 else 0
     ctx = multiprocessing.get_context("fork")
     with ProcessPoolExecutor(16, mp_context=ctx) as ex:
-        res = list(ex.map(one, [(i, seed, False) for i in range(n)], chunksize=4))
+        res = list(ex.map(one, [(i, seed, "--acc" in sys.argv)
+                                for i in range(n)], chunksize=4))
     import collections
     cnt = collections.Counter(r[0] for r in res)
     print(dict(cnt))
